@@ -331,6 +331,23 @@ def loops_of(fn_node):
     return out
 
 
+def loop_shapes(fn_node):
+    """what a loop invariant is written against, per loop in source order: the kind of loop, whether a `while` has the constant
+    test True (exits by break only), the locals / fields the loop may change, and how many break / continue / else it has.
+    Expressions (tests, bounds, right-hand sides) are NOT part of the shape: a change of those leaves the invariant applicable."""
+    out = []
+    for lp in loops_of(fn_node):
+        names, fields, mutated = assigned_names(lp.body + lp.orelse + ([lp.target] if isinstance(lp, ast.For) else []))
+        inner = [n for b in lp.body for n in ast.walk(b)]
+        out.append({'kind': type(lp).__name__,
+                    'test_true': bool(isinstance(lp, ast.While) and isinstance(lp.test, ast.Constant) and lp.test.value is True),
+                    'assigned': sorted(names) + sorted(f'{a}.{b}' for a, b in fields) + sorted(f'*{m}' for m in mutated),
+                    'breaks': sum(isinstance(n, ast.Break) for n in inner),
+                    'continues': sum(isinstance(n, ast.Continue) for n in inner),
+                    'else': bool(lp.orelse)})
+    return out
+
+
 def assigned_names(nodes):
     """names (and self.<attr> fields, and receivers of mutator calls) a block may assign"""
     names, fields, mutated = set(), set(), set()
@@ -865,6 +882,28 @@ class X:
             self.exec_block(s.body)
         self.loop_cut(s, k, names, fields, mutated, body, guard, s.orelse)
 
+    @staticmethod
+    def _merge_branches(st):
+        """if c: T = a  else: T = b   ->  T = a if c else b      (same target T; also acc.append(a) / acc.append(b));
+        the order of evaluation is the same in both forms (test, chosen value, then the target)"""
+        if not (isinstance(st, ast.If) and len(st.body) == 1 and len(st.orelse) == 1):
+            return st
+        a, b = X._merge_branches(st.body[0]), X._merge_branches(st.orelse[0])
+        if isinstance(a, ast.Assign) and isinstance(b, ast.Assign) and len(a.targets) == 1 and len(b.targets) == 1 \
+                and ast.dump(a.targets[0]) == ast.dump(b.targets[0]):
+            new = ast.Assign(targets=a.targets, value=ast.IfExp(test=st.test, body=a.value, orelse=b.value))
+        elif isinstance(a, ast.Expr) and isinstance(b, ast.Expr) and isinstance(a.value, ast.Call) and isinstance(b.value, ast.Call) \
+                and ast.dump(a.value.func) == ast.dump(b.value.func) and isinstance(a.value.func, ast.Attribute) \
+                and isinstance(a.value.func.value, ast.Name) and len(a.value.args) == 1 and len(b.value.args) == 1 \
+                and not a.value.keywords and not b.value.keywords:
+            new = ast.Expr(value=ast.Call(func=a.value.func, keywords=[],
+                                          args=[ast.IfExp(test=st.test, body=a.value.args[0], orelse=b.value.args[0])]))
+        else:
+            return st
+        ast.copy_location(new, st)
+        ast.fix_missing_locations(new)
+        return new
+
     def _loop_as_comprehension(self, s):
         """a for statement that is a comprehension in statement form:
              for t in A: [for u in B:] [if c: continue] [if d:]  f(...)            -> [f(...) for t in A ...]      (effects only)
@@ -891,7 +930,7 @@ class X:
             break
         if len(body) != 1:
             return None
-        st = body[0]
+        st = self._merge_branches(body[0])
         node, kind, acc = None, None, None
         if isinstance(st, ast.Expr) and isinstance(st.value, ast.Call):
             c = st.value
